@@ -5,7 +5,7 @@
 # Lets seeded changes be tried while long checks run against the real /repo.
 set -u
 patch=$(readlink -f "$1"); tier=$2; shift 2
-mr=/tmp/mrepo; mv=/tmp/mverif
+mr=/tmp/mrepo${NS_TAG:-}; mv=/tmp/mverif${NS_TAG:-}
 mkdir -p $mr $mv
 # --checksum without -t: a file whose content changed (also back to the original) gets a fresh mtime, otherwise cargo's
 # mtime fingerprints would keep the object code of the previous seeded change
